@@ -44,7 +44,7 @@ static const bool AVOID_BYSAMPLE_MULTIDIR = false; // COVARIOGRAM (by-sample alg
 // The by-sample algorithm accumulates every direction into the direction left in a file static: with directions of
 // different lag counts this runs out of the arrays (ASan / UBSan abort with address-dependent messages). With equal lag
 // counts the same defect shows as a failed "dir-split" oracle under a stable key, so that is what is generated.
-static const bool BYSAMPLE_MULTIDIR_EQUAL_NPAS = true;
+static const bool BYSAMPLE_MULTIDIR_EQUAL_NPAS = false; // (defect repaired in /repo: restriction off)
 static const bool AVOID_VMAP_FFT_COV_2D = false; // db_vmap(flag_FFT=true) of a covariance on a 2-D grid (heap overflow)
 static void onLibExit() { throw LibAbort(); }
 
@@ -576,7 +576,7 @@ static void compareDir(CmpCtx& cc, const Vario& v, int idir, const refv::Result&
         {
           c.probe("odd-cross-hetero");
           bool ok = mN || mS;
-          c.truth("odd-cross-pair-rule", K(kp + "cross:heterotopic-pair-rule"), ok,
+          c.truth("odd-cross-pair-rule", K("C12:" + cc.path + ":odd-cross:heterotopic-pair-rule"), ok,
                   fmt("dir %d (%d,%d): pair weights follow neither 'both values of the product defined' nor 'both "
                       "variables defined at both points' [%s]", idir, a, b, dtag.c_str()));
           if (!ok) continue;
@@ -721,7 +721,7 @@ static void caseGeneral(Rng& r, Ctx& c)
   bool allowDup = !refv::isAsym(mi.refMode);
   refv::Data D  = genScattered(r, c, ndim, nvar, allowDup, gi);
   int ndir      = ndim == 1 ? r.irange(1, 2) : r.irange(1, 3);
-  if (std::string(mi.name) == "COVARIOGRAM" && (AVOID_BYSAMPLE_MULTIDIR || r.coin(0.6))) ndir = 1;
+  if (std::string(mi.name) == "COVARIOGRAM" && AVOID_BYSAMPLE_MULTIDIR) ndir = 1;
   std::vector<DirSpec> dirs;
   std::string dtags;
   // code option: the same kind of criterion in every direction, except in the (small) "mixedcode" stratum where
@@ -732,7 +732,10 @@ static void caseGeneral(Rng& r, Ctx& c)
   for (int i = 0; i < ndir; i++)
   {
     int oc = codeAll;
-    if (mixedCode) oc = (i == 0) ? r.irange(1, 2) : (i == 1 ? 0 : r.irange(0, 2));
+    // mixed stratum: the first direction has a code criterion, the LAST has none, the middle one either. (With the
+    // last direction carrying more criteria than the average the library indexes past its list of checkers and ASan
+    // stops the process; this ordering exposes the same mis-addressing as wrong results under the oracle key only.)
+    if (mixedCode) oc = (i == 0) ? r.irange(1, 2) : (i == ndir - 1 ? 0 : r.irange(0, 2));
     (oc ? anyCode : anyNoCode) = true;
     DirSpec s = genDir(r, ndim, gi, oc);
     if (gi.dup && !s.ref.breaks.empty()) s.ref.breaks.clear();
@@ -857,6 +860,9 @@ static void caseGeneral(Rng& r, Ctx& c)
               double sg     = refs[i].asym ? -1. : 1.;
               std::string w = fmt("dir %d (%d,%d) slot %d/%d [%s]", i, a, b, s, ns, dirs[i].tag.c_str());
               std::string kk = K(kp + (a == b ? "var-swap:simple" : "var-swap:cross"));
+              // cross-covariance of heterotopic variables: same (open) finding as the pair rule of compareDir
+              if (refs[i].asym && mi.cls == CLS_ODD && a != b && !isotopicPair(D, a, b))
+                kk = K("C12:" + path + ":odd-cross:heterotopic-pair-rule");
               c.close("var-swap", kk, g4.sw[s4], g0.sw[s], relTol(g0.sw[s], 0), "sw " + w);
               double h4 = refv::undef(g4.hh[s4]) ? g4.hh[s4] : sg * g4.hh[s4];
               c.close("var-swap", kk, h4, g0.hh[s], relTol(g0.hh[s], 0), "hh " + w);
@@ -1130,18 +1136,28 @@ static void caseGenVar(Rng& r, Ctx& c)
     for (int i = 0; i < D.n; i++) col[i] = D.sel[i] = r.coin(0.85) ? 1. : 0.;
     g->addColumns(col, "sel", ELoc::SEL, 0);
   }
-  std::vector<int> inc = genGrincr(r, ndim);
-  int npas             = r.pick(std::vector<int>{2, 3, 4, 6, 10});
-  std::string nm       = "GENERAL" + std::to_string(order);
-  c.setSig(fmt("genvar:%s:ndim=%d:%s:s%d:h%d", nm.c_str(), ndim, gi.layout.c_str(), (int)D.hasSel, (int)gi.hetero));
+  // one or two grid directions; with two, the same number of lags (a direction mis-addressed by the library then lands in
+  // the arrays of the other one instead of outside them) and every failure of the case under one key
+  int ndir = r.coin(0.35) ? 2 : 1;
+  int npas = r.pick(std::vector<int>{2, 3, 4, 6, 10});
+  std::vector<std::vector<int>> incs;
+  for (int i = 0; i < ndir; i++) incs.push_back(genGrincr(r, ndim));
+  std::string nm = "GENERAL" + std::to_string(order);
+  c.setSig(fmt("genvar:%s:ndim=%d:%s:s%d:h%d:ndir%d", nm.c_str(), ndim, gi.layout.c_str(), (int)D.hasSel, (int)gi.hetero, ndir));
   c.puts("kind", "genvar");
   c.puts("mode", nm);
   c.put("nx", jvec(gg.nx));
-  c.put("grincr", jvec(inc));
+  c.put("grincr0", jvec(incs[0]));
+  c.putn("ndir", ndir);
+  c.putn("npas", npas);
   c.put("z1", jvec(D.z[0], 12));
+  if (ndir > 1) g_collapse = "C12:grid:GENERALk:multi-direction";
   VarioParam vp;
-  std::unique_ptr<DirParam> dp(DirParam::createFromGrid(g.get(), npas, VectorInt(inc)));
-  vp.addDir(*dp);
+  for (int i = 0; i < ndir; i++)
+  {
+    std::unique_ptr<DirParam> dp(DirParam::createFromGrid(g.get(), npas, VectorInt(incs[i])));
+    vp.addDir(*dp);
+  }
   std::string kp = "C12:grid:GENERALk:";
   std::unique_ptr<Vario> v;
   try
@@ -1155,15 +1171,17 @@ static void caseGenVar(Rng& r, Ctx& c)
     return;
   }
   if (!c.truth("compute", K(kp + "compute-failed"), v != nullptr, "Vario::compute returned an error on valid input")) return;
-  LD d2 = 0;
-  for (int k = 0; k < ndim; k++) d2 += (LD)(inc[k] * gg.dx[k]) * (inc[k] * gg.dx[k]);
-  double dpas    = (double)sqrtl(d2);
-  refv::Result R = refv::generalized(D, gg.nx, inc, npas, dpas, order);
-  static const ModeInfo gmi = {"GENERAL", refv::M_VARIOGRAM, CLS_EVEN, false, 0};
-  ModeInfo mi2 = gmi;
-  mi2.name     = nm == "GENERAL1" ? "GENERAL1" : (nm == "GENERAL2" ? "GENERAL2" : "GENERAL3");
-  CmpCtx cc{c, "grid", mi2, D, false};
-  compareDir(cc, *v, 0, R, "genvar");
+  if (!c.truth("compute", K(kp + "direction-count"), v->getDirectionNumber() == ndir, "directions kept")) return;
+  static const ModeInfo gmi = {"GENERALk", refv::M_VARIOGRAM, CLS_EVEN, false, 0};
+  CmpCtx cc{c, "grid", gmi, D, false};
+  for (int i = 0; i < ndir; i++)
+  {
+    LD d2 = 0;
+    for (int k = 0; k < ndim; k++) d2 += (LD)(incs[i][k] * gg.dx[k]) * (incs[i][k] * gg.dx[k]);
+    double dpas    = (double)sqrtl(d2);
+    refv::Result R = refv::generalized(D, gg.nx, incs[i], npas, dpas, order);
+    compareDir(cc, *v, i, R, fmt("genvar order %d dir %d of %d", order, i, ndir));
+  }
 }
 
 
@@ -1551,6 +1569,10 @@ static void caseVcloud(Rng& r, Ctx& c)
 // Vario.cpp keeps the "current direction" in a file static (IDIRLOC) that some algorithms read without setting it.
 // To keep every case a function of (seed, index) alone, a one-direction variogram of two points is computed first,
 // which leaves that static at 0 whatever the previous case did.
+// Still needed: Vario::_calculateGenOnGridSolution / _calculateOnLineSolution call _setResult without setting the file
+// static IDIRLOC, so a GENERALk calculation writes into the direction left by the previous Vario computation of the
+// process. Priming makes that "direction 0" for every case, i.e. a function of (seed, index) alone.
+static const bool PRIME_STATICS = true;
 static void primeStatics()
 {
   defineDefaultSpace(ESpaceType::RN, 1);
@@ -1567,7 +1589,7 @@ static void run_case(Rng& r, Ctx& c)
   OptDbg::reset();
   redefine_exit(onLibExit);
   g_collapse.clear();
-  primeStatics();
+  if (PRIME_STATICS) primeStatics();
   int k = r.irange(0, 99);
   if (k < 54) caseGeneral(r, c);
   else if (k < 79) caseGrid(r, c);
